@@ -51,6 +51,9 @@ type Exec struct {
 
 	refRoot    map[string]string // reference term -> its allocation root (see setRoot)
 	keySt      *State            // state that receives the projection instances of tuple map keys
+	localLazy   bool                       // local mode (zz_local.go): undefined values are arbitrary
+	localReach  map[*ssa.BasicBlock]bool   // local mode: blocks from which the site is reachable
+	localTarget *ssa.CallCommon            // local mode: the call site under verification
 	inSelectEvent bool           // an event of a select case is being checked on a clone (tokens are applied by selectOp)
 	rootNum    map[string]int    // allocation root -> its allocation number
 	refUB      map[string]int    // opaque reference term -> n with term <= refK*(alloc0+n)
@@ -302,6 +305,9 @@ func (x *Exec) VerifyFunction(fn *ssa.Function, con *FuncContract) (obls []*Obl,
 	if fn.Blocks == nil {
 		return nil, fmt.Errorf("%s: no body", x.rootKey)
 	}
+	if con != nil && con.Attrs["local"] != "" {
+		return x.verifyLocal(fn, con)
+	}
 	st := NewState()
 	st.Assume(IntCmp(">", x.allocBase, IntConstI(0)))
 	fr := x.newFrame(fn, 0)
@@ -508,6 +514,9 @@ func (x *Exec) runBlock(fr *Frame, st *State, b *ssa.BasicBlock, pred *ssa.Basic
 	if st.dead || x.pathLimit {
 		return
 	}
+	if x.localReach != nil && fr.isRoot && !x.localReach[b] {
+		return // local mode: this path can no longer reach the call site under verification
+	}
 	// loop header handling
 	if li := fr.info.loops[b]; li != nil {
 		fromInside := pred != nil && li.blocks[pred]
@@ -675,7 +684,11 @@ func (x *Exec) bindFrameNames(env *SpecEnv, fr *Frame) {
 	for name, sv := range fr.names {
 		v, ok := fr.vals[sv]
 		if !ok {
-			continue
+			if !(x.localLazy && fr.isRoot) {
+				continue
+			}
+			// local mode: a variable defined before the starting point has an arbitrary value
+			v = x.operand(fr, env.state(), sv)
 		}
 		if fr.nameIsAddr[name] {
 			env.bindLazyDeref(name, v, sv.Type())
@@ -1236,6 +1249,12 @@ func (x *Exec) operand(fr *Frame, st *State, v ssa.Value) Value {
 		return &FuncV{}
 	}
 	if val, ok := fr.vals[v]; ok {
+		return val
+	}
+	if x.localLazy && fr.isRoot {
+		// local mode: a value defined before the starting point is an arbitrary value of its type
+		val := x.freshValue(st, v.Type(), "lazy."+v.Name())
+		fr.vals[v] = val
 		return val
 	}
 	unsupported("operand %s (%T) undefined in %s", v.Name(), v, funcKey(fr.fn))
